@@ -39,6 +39,8 @@ def tasks(tier):
             hist("async", True, 0, first, 2)
             hist("sync", True, 0, first, 1, "first_none")
             hist("async", True, 0, first, 1, "first_none")
+            if first == 2:
+                hist("sync", False, 1, first, 2)  # rtc=False, the internal transition (b, tick) with nested sends from its callbacks
             hist("sync", True, 1, first, 1, "single_int")  # exactly one before/on callback: its value (also 0) is the result
             hist("sync", False, 1, first, 1, "single_int")
             hist("async", True, 1, first, 1, "single_int")
